@@ -62,7 +62,7 @@ def setup_worker():
 
 def _v(cls, msg, trace, extra=""):
     src = trace["source"]
-    fmt = src.get("fmt") or c07.natural_fmt(src.get("file", ""))
+    fmt = src.get("fmt") or c07.natural_fmt(src.get("file") or src.get("name") or "")
     sig = f"{cls}|{fmt}|{extra}"
     return {"cls": cls, "sig": sig, "msg": msg, "trace": copy.deepcopy(trace)}
 
@@ -143,6 +143,8 @@ def source_data(src):
     """(name, fmt, bytes, write-violations) for a source."""
     if src["kind"] == "corpus":
         return src["file"], src.get("fmt"), common.corpus_bytes(src["file"]), None, None
+    if src["kind"] == "text":
+        return src["name"], src.get("fmt"), src["text"].encode(), None, None
     w, rec = write_source(src)
     return src["filename"], src["fmt"], rec["bytes"] or b"", w, rec
 
@@ -213,6 +215,7 @@ def check_source(trace, stats=None, cuts=None, corruptions=None):
             prev = e
             disk = seams.SimDisk(log_events=False)
             disk.put(name, chunk)
+            canon.clear_function_caches()  # "as a single-frame file would load": with cold caches
             try:
                 with seams.Installed(disk), warnings.catch_warnings():
                     warnings.simplefilter("ignore")
@@ -342,7 +345,50 @@ def execute(trace):
 # ------------------------------------------------------------------------------------------------
 
 
+SYMS = ["H", "C", "N", "O", "F", "Na", "Cl", "Fe"]
+
+
+def gen_text_source(rng):
+    """A foreign writer's trajectory for the read-only formats: extended XYZ (optionally with identical title
+    lines and per-atom extra columns) and GROMACS."""
+    nframes = rng.choice([1, 2, 3, 3, 5, 8])
+    if rng.random() < 0.6:
+        same_title = rng.random() < 0.5
+        extra_col = rng.random() < 0.7
+        lines = []
+        for i in range(nframes):
+            natom = rng.randint(1, 5)
+            props = "species:S:1:pos:R:3" + (":q:R:1" if extra_col else "") + (":Z:I:1" if rng.random() < 0.2 and not extra_col else "")
+            title = f'Properties={props} energy={-1.5 if same_title else round(rng.uniform(-9, -1), 4)} pbc="F F F"'
+            if not same_title and rng.random() < 0.5:
+                title += f" step={i}"
+            lines.append(str(natom))
+            lines.append(title)
+            for _a in range(natom):
+                sym = rng.choice(SYMS)
+                row = f"{sym} {rng.uniform(-5, 5):.5f} {rng.uniform(-5, 5):.5f} {rng.uniform(-5, 5):.5f}"
+                if extra_col:
+                    row += f" {rng.uniform(-1, 1):.4f}"
+                if ":Z:I:1" in props:
+                    row += " 1"
+                lines.append(row)
+        return {"kind": "text", "name": "g.extxyz", "fmt": None, "text": "\n".join(lines) + "\n"}
+    lines = []
+    for i in range(nframes):
+        natom = rng.randint(1, 5)
+        lines.append(f"generated frame, t= {i * 0.5:.3f}" if rng.random() < 0.7 else "generated frame")
+        lines.append(f"{natom:5d}")
+        for a in range(natom):
+            x, y, z = (rng.uniform(0, 3) for _ in range(3))
+            vx, vy, vz = (rng.uniform(-1, 1) for _ in range(3))
+            lines.append(f"{1:5d}{'SOL':<5s}{rng.choice(['OW', 'HW1', 'HW2']):>5s}{a + 1:5d}{x:8.3f}{y:8.3f}{z:8.3f}{vx:8.4f}{vy:8.4f}{vz:8.4f}")
+        lines.append(f"{3.0:10.5f}{3.0:10.5f}{3.0:10.5f}")
+    return {"kind": "text", "name": "g.gro", "fmt": None, "text": "\n".join(lines) + "\n"}
+
+
 def gen_source(rng, tier):
+    if rng.random() < 0.22:
+        return gen_text_source(rng)
     fmt = rng.choice(sorted(FNAMES))
     n = rng.choice([1, 1, 2, 2, 3, 3, 4, 5, 8, 13, 50] if tier == "thorough" else [1, 2, 2, 3, 3, 4, 5, 8, 21])
     kind = rng.choice(["list", "gen", "iterobj", "gen_raise", "gen_fresh", "gen_fresh", "gen_reuse"])
@@ -400,12 +446,12 @@ def run_task(task):
         return out
 
     viols, n = check_source(trace, stats, cuts, corruptions)
-    if src["kind"] != "corpus" and src["iter_kind"] == "gen_raise":
+    if src["kind"] == "dumped_many" and src["iter_kind"] == "gen_raise":
         stats.add("nontrivial", common.short(repr(("raise", common.jdump(src)))))
     dig = common.short(repr([(v["cls"], v["msg"]) for v in viols]) + repr(sorted(stats.c.items())))
     sample = None
     if task["run"] % 17 == 0:
-        sample = {"source": src.get("file") or {k: (v if k != "objs" else f"{len(v)} generated frames") for k, v in src.items()},
+        sample = {"source": src.get("file") or {k: (v if k not in ("objs", "text") else (f"{len(v)} generated frames" if k == "objs" else v[:200])) for k, v in src.items()},
                   "evaluations": n, "counters": {k: v for k, v in stats.c.items() if not k.startswith("steps")}}
     return {"n": n, "digest": dig, "violations": viols, "stats": stats.export(), "sample": sample}
 
@@ -413,13 +459,13 @@ def run_task(task):
 def shrink(trace, still_fails):
     t = copy.deepcopy(trace)
     src = t["source"]
-    if src["kind"] != "corpus" and len(src["objs"]) > 1 and src["iter_kind"] != "gen_raise":
+    if src["kind"] == "dumped_many" and len(src["objs"]) > 1 and src["iter_kind"] != "gen_raise":
         def test(objs):
             return still_fails({**t, "source": {**src, "objs": objs}})
         objs = shr.ddmin_list(src["objs"], test, min_len=1)
         t["source"] = {**src, "objs": objs}
         src = t["source"]
-    if src["kind"] != "corpus":
+    if src["kind"] == "dumped_many":
         t2 = copy.deepcopy(t)
         t2["source"]["knobs"] = {}
         if still_fails(t2):
